@@ -161,6 +161,11 @@ impl<T: Read + Write + ScmSocket> ClientConnection<T> {
     }
 
     fn write(&mut self) -> Result<()> {
+        if self.state == ClientConnectionState::Closed {
+            // Nothing can be written on a closed connection; it is only kept
+            // until the responses for its in-flight requests are absorbed.
+            return Ok(());
+        }
         // The stream is available for writing.
         match self.connection.try_write() {
             Err(ConnectionError::ConnectionClosed) | Err(ConnectionError::StreamWriteError(_)) => {
